@@ -15,10 +15,10 @@ from datetime import date, time
 from common import impl_error
 
 PROP = "C12"
-MODULES = ["C12", "C12a", "C12b", "C12c"]
+MODULES = ["C12", "C12a", "C12b"]
 GEN = ["Hytera"]
 
-TESTS = "/repo/okdmr/tests/dmrlib/hytera"
+TESTS = os.path.join(os.environ.get("VERIF_REPO") or "/repo", "okdmr/tests/dmrlib/hytera")
 
 # ------------------------------------------------------------------------------------------------
 # lazy imports of the code under test
@@ -239,12 +239,30 @@ def impl_hdap_parse(data: bytes) -> str:
     return safe(go)
 
 
+def inner_unmodelled(inner: bytes) -> bool:
+    """the inner HDAP parses to an object outside the model (an id attribute left as an empty bytes object)"""
+    try:
+        pdu_tuple(L.hdap.HDAP.from_bytes(inner))
+    except Unmodelled:
+        return True
+    except BaseException:  # noqa
+        return False
+    return False
+
+
 def impl_hrnp_parse(data: bytes) -> str:
     def go():
         h = L.hrnp.HRNP.from_bytes(data)
         return hrnp_tuple(h) + " => " + bytes_len(h)
 
-    return safe(go)
+    r = safe(go)
+    if r.startswith("ERR") and r != "ERR Unmodelled" and len(data) >= 12:
+        # HRNP.__init__ serialises the inner PDU for the checksum; an inner object outside the model
+        # (see as_id) fails there with AttributeError: same canonical answer as the model's
+        plen = int.from_bytes(data[8:10], "big")
+        if plen <= len(data) and data[3] in {o.value for o in L.hrnp.HRNPOpcodes} and inner_unmodelled(data[12:plen]):
+            return "ERR Unmodelled"
+    return r
 
 
 def impl_hstrp_parse(data: bytes) -> str:
@@ -430,7 +448,7 @@ def gen_rcp(rng):
             ro = gen_bytes(rng, 2) if rng.random() < 0.8 else rng.choice([b"\x00\x00", b"\xff\xff", b"\x41\x09"])
             if int.from_bytes(ro, "little") not in known:
                 break
-        kw.update(raw_opcode=ro, raw_payload=gen_bytes(rng, rng.choice([0, 1, 2, 5, 12, 40, 206])))
+        kw.update(raw_opcode=ro, raw_payload=gen_bytes(rng, rng.choice([0, 1, 2, 5, 12, 40, 206, 255, 256, 300, 1000])))
     elif op == O.CallRequest:
         kw.update(call_type=ct(), target_id=id32())
     elif op in (O.CallReply, O.BroadcastMessageConfigurationReply, O.BroadcastStatusConfigurationReply, O.StatusChangeNotificationReply):
@@ -455,7 +473,7 @@ def gen_rcp(rng):
     elif op == O.ZoneAndChannelOperationRequest:
         kw.update(raw_payload=gen_bytes(rng, 5))
     elif op == O.ZoneAndChannelOperationReply:
-        kw.update(raw_payload=gen_bytes(rng, rng.choice([0, 1, 4, 12, 12, 30])))
+        kw.update(raw_payload=gen_bytes(rng, rng.choice([0, 1, 4, 12, 12, 30, 255, 256, 700])))
     elif op == O.StatusChangeNotificationRequest:
         targets = list(C.StatusChangeNotificationTargets)
         rng.shuffle(targets)
@@ -577,6 +595,11 @@ def check_hrnp(ctx, rng, p, b, inp, pairs):
               block_number=pick_int(rng, 255), packet_number=pick_int(rng, 65535))
     if rng.random() < 0.3:
         kw["version"] = rng.choice([0, 1, 2, 3, 4])
+    if b is not None and rng.random() < 0.25:
+        # boundary of the end-around carry: choose the packet number so that the first fold of the 16-bit word sum
+        # overflows again (low half of the sum within `carries` of 0xFFFF) or lands exactly on 0xFFFF / 0x0000
+        kw["packet_number"] = carry_packet_number(rng, kw, b)
+        ctx.count("hrnp:carry-boundary")
     h = call(H.HRNP, **kw)
     inp = dict(inp, nesting="HRNP", hrnp={k: (v if isinstance(v, int) else None) for k, v in kw.items() if k not in ("opcode", "data")})
     if isinstance(h, Exc):
@@ -611,6 +634,18 @@ def check_hrnp(ctx, rng, p, b, inp, pairs):
         if not tup.startswith("ERR"):
             pairs.append((f"hrnp.mk {hx(h.header)} {hx(h.version)} {h.block_number} {h.opcode.value} {h.source} {h.destination} {h.packet_number} {tup}", hx(hb) + " " + str(len(h))))
             pairs.append((f"hrnp.parse {hx(hb)}", impl_hrnp_parse(hb)))
+
+
+def carry_packet_number(rng, kw, inner: bytes) -> int:
+    """packet number that puts the ones-complement word sum of the packet at the cascade boundary"""
+    ver = kw.get("version", 4)
+    head = bytes([0x7E, ver, kw["block_number"], 0x00, kw["source"], kw["destination"], 0, 0]) + (12 + len(inner)).to_bytes(2, "big")
+    d = head + inner
+    d += b"\x00" if len(d) % 2 else b""
+    s0 = sum(int.from_bytes(d[i : i + 2], "big") for i in range(0, len(d), 2))
+    carries = max(1, (s0 + 0xFFFF) >> 16)
+    j = rng.choice([0, 0, 1, carries - 1, carries, rng.randrange(carries + 1)])
+    return (0xFFFF - (s0 & 0xFFFF) - j) & 0xFFFF
 
 
 def hrnp_fields(h):
@@ -880,7 +915,7 @@ def run(ctx):
         one_pdu(ctx, rng, p, kind, pairs, sample=kind.endswith("request"))
 
     # -------- generated PDUs
-    n = ctx.budget(1250, 50000)
+    n = ctx.budget(2500, 25000)
     gens = [("RRS", gen_rrs), ("LP", gen_lp), ("TMP", gen_tmp), ("RCP", gen_rcp)]
     for i in range(n):
         for name, g in gens:
@@ -947,7 +982,7 @@ def run(ctx):
             b = call(p.as_bytes)
             if not isinstance(b, Exc):
                 base.append((name, p, b))
-        m = ctx.budget(1500, 40000)
+        m = ctx.budget(4000, 30000)
         for i in range(m):
             if i % 50 == 0:
                 base = []
